@@ -12,7 +12,7 @@ import traceback
 VERIF = os.path.dirname(os.path.dirname(os.path.abspath(__file__)))
 sys.path.insert(0, VERIF)
 
-CONTRACT_MODULES = ['c_util', 'c_codec_dec', 'c_codec_dec2', 'c_codec_enc', 'c_brokerclient', 'c_consumer', 'c_producer', 'c_client', 'c_group']
+CONTRACT_MODULES = ['c_util', 'c_codec_dec', 'c_codec_dec2', 'c_codec_enc', 'c_brokerclient', 'c_consumer', 'c_producer', 'c_client', 'c_group', 'c_partitioner']
 
 _ENG = None
 
@@ -51,6 +51,9 @@ def jobs_for(eng, prop):
         if c.extra.get('instances') == 'relative_unpack-formats':
             for f in units.formats_in_repo(eng.repo):
                 out.append((qn, {'fmt': f}))
+        elif c.extra.get('type_instances'):
+            for label, tys in c.extra['type_instances'].items():
+                out.append((qn, {'@types': dict(tys), '@label': label}))
         else:
             out.append((qn, None))
     return out
